@@ -2210,16 +2210,17 @@ fn build_vp09_box(video: &Mp4VideoTrack, vp9_config: &Vp9Config) -> Vec<u8> {
 ///
 /// Based on VP9 Codec ISO Media File Format Binding specification.
 fn build_vpcc_box(vp9_config: &Vp9Config) -> Vec<u8> {
-    let payload = vec![
-        1,                              // Version (1 byte) - set to 1
-        vp9_config.profile,             // Profile (1 byte)
-        vp9_config.level,               // Level (1 byte)
-        vp9_config.bit_depth,           // Bit depth (1 byte)
-        vp9_config.color_space,         // Color space (1 byte)
-        vp9_config.transfer_function,   // Transfer function (1 byte)
-        vp9_config.matrix_coefficients, // Matrix coefficients (1 byte)
-        vp9_config.full_range_flag,     // Video full range flag (1 byte)
-    ];
+    // VPCodecConfigurationBox: FullBox(version 1, flags 0) followed by the record.
+    let mut payload = Vec::new();
+    payload.extend_from_slice(&0x0100_0000_u32.to_be_bytes()); // version 1, flags 0
+    payload.push(vp9_config.profile);
+    payload.push(vp9_config.level);
+    // bitDepth (4) | chromaSubsampling (3, 1 = 4:2:0 colocated) | videoFullRangeFlag (1)
+    payload.push(((vp9_config.bit_depth & 0x0f) << 4) | (1 << 1) | (vp9_config.full_range_flag & 0x01));
+    payload.push(vp9_config.color_space); // colourPrimaries
+    payload.push(vp9_config.transfer_function); // transferCharacteristics
+    payload.push(vp9_config.matrix_coefficients); // matrixCoefficients
+    payload.extend_from_slice(&0u16.to_be_bytes()); // codecInitializationDataSize
 
     build_box(b"vpcC", &payload)
 }
